@@ -15,6 +15,8 @@ R35.d  maxheap: insert counts the element once, bubbles up only past strictly lo
        one of the two directions accepting a tie between the children; both directions relink
        consistently; size and priority are updated; split_and_steal conserves the number of elements
        (|heap| + |new| + 1 = old size) and gives each heap the priority of its top.
+R35.e  the sizes given to the two halves by split_and_steal are the node counts of the left / right subtree of
+       a complete binary tree, for every heap size 3 .. 65535 (the arithmetic is evaluated from the AST).
 """
 from sa import aff
 from sa.facts import AnalysisBroken, cond_atom
@@ -238,6 +240,8 @@ def run(ctx):
         okz = okz and want == aff.Poly.atom('size') - aff.norm(a.lhs) - aff.Poly.const(1) and a.lhs.s != b2.lhs.s
     rd.expect(okz, 'split:conservation', sz[0].loc if sz else f.where(),
               'in both split cases the second heap must get size - |first heap| - 1 elements (the stolen top is the 1)', note='|heap| + |new| + 1 = old size in both cases')
+    re2 = ctx.rule('R35.e', 'heap split: half sizes = subtree sizes of a complete tree (expressions evaluated from the AST for every size 3..65535)', floor=2)
+    check_split_sizes(ctx, um, re2)
     prs = [s_ for s_ in f.stores() if s_.lhs.s.endswith('->priority')]
     okp = len(prs) >= 3 and all(s_.rhs.s == s_.lhs.s.replace('->priority', '->top->priority') for s_ in prs)
     rd.expect(okp, 'split:priorities', prs[0].loc if prs else f.where(), 'each heap must take the priority of its own top after a split', note='heap priorities = priorities of the tops')
@@ -245,3 +249,142 @@ def run(ctx):
     sides = sorted((s_.lhs.s, s_.rhs.s.split('.')[-1]) for s_ in tops if f.guarded_by(s_.point, lambda a, t: True))
     rd.expect(('(*new_heap_ptr)->top', 'list_prev') in sides and ('heap->top', 'list_next') in sides, 'split:children', tops[0].loc if tops else f.where(),
               'the new heap takes the left subtree and the old heap keeps the right one (each exactly once)', note='left subtree -> new heap, right subtree stays')
+
+
+# ---------------------------------------------------------------------------------------
+# R35.e  heap_split_and_steal, sizes of the two halves.  The heap is a complete binary tree addressed by
+#        the bits of its size, so after removing the top the left subtree (new heap) and the right
+#        subtree (old heap) must carry exactly the node counts of the left / right subtree of a complete
+#        tree with `size` nodes - insert and remove navigate from these counts.  The branch condition
+#        and the four size expressions are pure unsigned arithmetic over `size`: they are evaluated
+#        from the syntax tree (no program code is run) for every size 3 .. 65535 and compared with the
+#        closed form.  hiBit() is evaluated from its own body in the same way.
+# ---------------------------------------------------------------------------------------
+M32 = 0xffffffff
+
+
+def _ev(e, env):
+    k = e.k
+    if k == 'int':
+        return e.cv & M32
+    if k in ('ref', 'mem', 'idx'):
+        if e.s in env:
+            return env[e.s]
+        raise KeyError(e.s)
+    if k == 'un':
+        v = _ev(e.ch[0], env)
+        if e.op == '~':
+            return (~v) & M32
+        if e.op == '-':
+            return (-v) & M32
+        if e.op == '!':
+            return 0 if v else 1
+        raise KeyError('un ' + e.op)
+    if k == 'bin':
+        a = _ev(e.ch[0], env); b = _ev(e.ch[1], env)
+        op = e.op
+        if op == '+': return (a + b) & M32
+        if op == '-': return (a - b) & M32
+        if op == '*': return (a * b) & M32
+        if op == '&': return a & b
+        if op == '|': return a | b
+        if op == '^': return a ^ b
+        if op == '>>': return a >> b
+        if op == '<<': return (a << b) & M32
+        if op == '<': return int(a < b)
+        if op == '>': return int(a > b)
+        if op == '<=': return int(a <= b)
+        if op == '>=': return int(a >= b)
+        if op == '==': return int(a == b)
+        if op == '!=': return int(a != b)
+        if op == '&&': return int(bool(a) and bool(b))
+        if op == '||': return int(bool(a) or bool(b))
+        raise KeyError('bin ' + op)
+    if k == 'call' and e.n in env.get('__fns__', {}):
+        return env['__fns__'][e.n](*[_ev(a, env) for a in e.ch])
+    raise KeyError(k)
+
+
+def _straightline(fn):
+    """evaluate a loop-free, branch-free function body: returns a python callable"""
+    evs = [e for e in fn.events() if e.kind in ('store', 'ret')]
+    evs.sort(key=lambda e: fn.line_of(e.nid) * 1000 + (e.idx or 0))
+    pn = [p['n'] for p in fn.params]
+    def run(*args):
+        env = dict(zip(pn, [a & M32 for a in args]))
+        for e in evs:
+            if e.kind == 'ret':
+                return _ev(e.e, env)
+            v = _ev(e.rhs, env)
+            if e.op == '=':
+                env[e.lhs.s] = v
+            else:
+                cur = env[e.lhs.s]
+                env[e.lhs.s] = _ev_op(e.op[:-1], cur, v)
+        raise KeyError('no return')
+    return run
+
+
+def _ev_op(op, a, b):
+    return {'|': a | b, '&': a & b, '+': (a + b) & M32, '-': (a - b) & M32, '>>': a >> b, '<<': (a << b) & M32, '^': a ^ b}[op]
+
+
+def complete_tree_halves(n):
+    """(left, right) subtree sizes of a complete binary tree with n >= 1 nodes"""
+    h = n.bit_length() - 1                  # levels above the last one are full: 2^h - 1 nodes
+    last = n - ((1 << h) - 1)
+    half = (1 << h) >> 1
+    left = (half - 1 if h else 0) + min(last, half)
+    right = (half - 1 if h else 0) + max(0, last - half)
+    return left, right
+
+
+def check_split_sizes(ctx, um, rule):
+    hb = um.func('hiBit')
+    f = um.func('heap_split_and_steal')
+    ctx.functions_analysed.update([hb.name])
+    if len(hb.blocks) > 3:
+        raise AnalysisBroken('hiBit is no longer straight-line code')
+    hib = _straightline(hb)
+    okh = all(hib(n) == (1 << (n.bit_length() - 1)) for n in list(range(1, 5000)) + [65535, 65536, 1 << 20, (1 << 31) - 1])
+    rule.expect(okh, 'split:hiBit', hb.where(), 'hiBit(n) must return the highest power of two not above n', note='hiBit = highest power of two <= n (evaluated for 1..4999 and large values)')
+    sz = [s_ for s_ in f.stores() if s_.lhs.s.endswith('->size') and s_.op == '=']
+    blocks = sorted({s_.block for s_ in sz})
+    # the branch that selects between the two blocks
+    sel = None
+    for b in f.blocks:
+        c = f.cond(b)
+        if c is None:
+            continue
+        tgt = {lab: s for s, lab in f.succs(b) if isinstance(lab, bool)}
+        if len(blocks) == 2 and set(tgt.values()) == set(blocks):
+            sel = (b, c, tgt)
+    if sel is None or len(blocks) != 2:
+        raise AnalysisBroken('heap_split_and_steal: the branch selecting the two size computations was not recognised')
+    b, cond, tgt = sel
+    defs = {s_.lhs.s: s_.rhs for s_ in f.events() if s_.kind == 'store' and s_.lhs.k == 'ref' and s_.rhs is not None and f.dominates(s_.point, (b, 0)) and s_.lhs.s in ('size', 'highBit', 'twoBit', 'lastPos')}
+    order = [s_ for s_ in f.events() if s_.kind == 'store' and s_.lhs.k == 'ref' and s_.rhs is not None and (s_.block == b or f.dominates(s_.point, (b, 0)))]
+    order.sort(key=lambda e: f.line_of(e.nid) * 1000 + (e.idx or 0))
+    bad = None
+    try:
+        for n in range(3, 65536):
+            env = {'heap->size': n, '__fns__': {'hiBit': hib}}
+            for s_ in order:
+                try:
+                    env[s_.lhs.s] = _ev(s_.rhs, env)
+                except KeyError:
+                    pass
+            taken = tgt[bool(_ev(cond, env))]
+            for s_ in sorted([x for x in sz if x.block == taken], key=lambda e: e.idx):
+                env[s_.lhs.s] = _ev(s_.rhs, env)
+            left, right = complete_tree_halves(n)
+            got_l = env.get('(*new_heap_ptr)->size'); got_r = env.get('heap->size')
+            if (got_l, got_r) != (left, right):
+                bad = (n, got_l, got_r, left, right)
+                break
+    except KeyError as ex:
+        raise AnalysisBroken('heap_split_and_steal: size arithmetic uses a construct the evaluator does not know (%s)' % ex)
+    rule.expect(bad is None, 'split:half-sizes', f.loc(f.blocks[b]['cond']),
+                'for a heap of %s nodes the split gives the left half %s and the right half %s nodes; the left / right subtrees of a complete tree of that size have %s / %s: '
+                'insert and remove navigate from these counts and then lose or duplicate a task' % (bad or (0, 0, 0, 0, 0)),
+                note='half sizes equal the subtree sizes of a complete tree, for every size 3 .. 65535')
